@@ -87,6 +87,18 @@ func (t *Target) handle(w http.ResponseWriter, r *http.Request) {
 			}
 		}
 		return
+	case act == "t":
+		// the connection is reset inside the response body: headers and a part of the body
+		// arrive, then the connection is closed (reading the body fails)
+		if hj, ok := w.(http.Hijacker); ok {
+			c, _, err := hj.Hijack()
+			if err == nil {
+				_, _ = c.Write([]byte(fmt.Sprintf("HTTP/1.1 200 OK\r\nContent-Type: application/json\r\nX-Tok: h%d\r\nContent-Length: 4096\r\n\r\n{\"tok\":\"t%d\",", k, k)))
+				_ = c.Close()
+				return
+			}
+		}
+		return
 	case act == "n":
 		payload = "not json"
 	case act == "m":
